@@ -79,4 +79,16 @@ PROPS["C14"] = {
     "assumptions": ["axis-parallel to 1e-6 (HOLA coordinates come from a numeric layout)", "satisfaction of returned constraints is judged through SepPair::generateSeparationConstraint"],
     "parts": [{"name": "hola", "src": "c14_hola.cpp", "quick": T(150, 60, [], 100), "thorough": T(1700, 120, [], 100)}],
 }
+PROPS["C07"] = {
+    "rule": "30 constraint templates (Separation <=/== with gaps -5/15/200, Alignment with offsets, Boundary, Distribution, MultiSeparation in both dimensions, FixedRelative groups), every subset of size <=2, on 2-4 nodes with start centres from {0,10,30}^2 (coincident allowed), sizes 20x20/40x20, edge sets {none, one edge, path, cycle}; entry points makeFeasible+run, run, makeFeasible, makeFeasible+runOnce, ConstrainedMajorizationLayout::run; overlap avoidance and neighbour stress off/on. A violated template (>1e-4) must be named in the unsatisfiable-constraint lists. Non-trivial = two constraints or something reported unsatisfiable.",
+    "bounds": {"quick": "n=3: all 465 template subsets x every 7th/13th placement x 5 entry points (+ flag variants), n=2 all placements, n=4 single templates", "thorough": "n=3 every placement x 5 entry points; n=4 pairs on every 53rd placement"},
+    "assumptions": ["oracle: constraint semantics written from the doxygen text of compound_constraints.h", "PageBoundaryConstraints (soft, weighted page edges) are outside the alphabet"],
+    "parts": [{"name": "cola", "src": "c07_cola.cpp", "quick": T(150, 4, ["--prop", "C07"], 100), "thorough": T(1700, 4, ["--prop", "C07"], 100)}],
+}
+PROPS["C08"] = {
+    "rule": "3-4 nodes with start centres from {0,15,40}^2 (heavily overlapping, coincident), sizes 20x20/40x20, path graph; overlap avoidance on; exemption group none/{0,1}; cluster hierarchies none, {0,1}|{2,3}, {0,2}|{1}, {0,1,2}|{3}, nested {{0,1},2}|{3}; padding/margin 0/5; optional satisfiable Separation; makeFeasible() then run(). Judged only when nothing is reported unsatisfiable: no non-exempt pair overlaps by >1e-3 in both axes, sibling cluster member boxes disjoint, no non-member inside a cluster's member box. Non-trivial = some pair overlaps initially.",
+    "bounds": {"quick": "n=3 all placements x sizes (4 configurations), n=4 all placements (2 configurations, 2 size masks)", "thorough": "n=4 all placements x 5 hierarchies x padding x 4 size masks"},
+    "assumptions": ["rectangle interval arithmetic with the tolerances of the property text"],
+    "parts": [{"name": "cola", "src": "c07_cola.cpp", "quick": T(150, 4, ["--prop", "C08"], 100), "thorough": T(1700, 4, ["--prop", "C08"], 100)}],
+}
 NOT_APPLICABLE = {}
